@@ -5,13 +5,21 @@ From Ford Require Import Base.Str Lex.Quote Lex.ReaderSpec Lex.Fixed.
 
 (* a statement line: label field (columns 1-5), column 6, then the statement field written as
    blanks ++ text ++ blanks, optionally followed by an inline comment "!..." (which may be a
-   documentation comment "!!...") *)
+   documentation comment "!!...").  [fx_seq l = Some sq]: the line is longer than 72 columns; its
+   statement field fills columns 7-72 and [sq] is what stands in columns 73 and beyond (a sequence
+   number, or the rest of an inline comment that runs over column 72). *)
 Record fxline := { fx_label : str; fx_c6 : ascii; fx_ind : nat; fx_text : str; fx_pad : nat;
-                   fx_comment : option str }.
+                   fx_comment : option str; fx_seq : option str }.
 
 Definition fx_code (l : fxline) : str := spaces (fx_ind l) ++ fx_text l ++ spaces (fx_pad l).
 Definition fx_field (l : fxline) : str := fx_code l ++ render_comment (fx_comment l).
-Definition render_fxline (l : fxline) : str := fx_label l ++ fx_c6 l :: fx_field l ++ [nl].
+Definition seq_text (l : fxline) : str := match fx_seq l with Some sq => sq | None => [] end.
+Definition render_fxline (l : fxline) : str := fx_label l ++ fx_c6 l :: fx_field l ++ seq_text l ++ [nl].
+
+(* the line as the standard reads it when the line length is limited: columns 1-72 *)
+Definition cut_line (l : fxline) : fxline :=
+  {| fx_label := fx_label l; fx_c6 := fx_c6 l; fx_ind := fx_ind l; fx_text := fx_text l; fx_pad := fx_pad l;
+     fx_comment := fx_comment l; fx_seq := None |}.
 
 (* lines that are not statement lines: comment lines (C, c, * or ! in column 1), blank lines of
    any width, and comment lines whose first non-blank character is a '!' in some other column than
@@ -90,26 +98,48 @@ Definition bline_of (i : fxirr) : bline :=
   | FxBang ind rest => BComment ind rest
   end.
 
+(* the free-form line starts with the label (if any), the blanks and the text of the statement field *)
+Definition seg_ind (l : fxline) : nat := match label_part l with [] => fx_ind l | _ => 0 end.
+Definition seg_head (l : fxline) : str :=
+  match label_part l with [] => [] | lp => lp ++ spaces (fx_ind l) end.
+(* its width up to the end of the text *)
+Definition text_width (l : fxline) : nat := length (label_part l) + fx_ind l + length (fx_text l).
+
 (* Outside literals a line break is a token boundary: the line is continued with "text &" and the
    continuation line starts with its text (free form joins the two with a blank).  An inline
-   comment follows the '&'; blanks at its end are immaterial and are not written. *)
+   comment follows the '&'; blanks at its end are immaterial and are not written.  What stands in
+   columns 73+ of a long line is no part of the statement nor of its inline comment: on a line
+   without inline comment it is kept as an ordinary comment "! ..." from column 73 on, on a line
+   with an inline comment it is left out. *)
+Definition cont_comment (l : fxline) : option str :=
+  match fx_seq l, fx_comment l with
+  | Some sq, None => Some (" "%char :: sq)
+  | _, c => option_map rstrip c
+  end.
+Definition cont_trail (l : fxline) : nat :=
+  match fx_seq l, fx_comment l with
+  | _, Some _ => 1
+  | Some _, None => 72 - (text_width l + 2)
+  | None, None => 0
+  end.
 Definition seg_cont (l : fxline) (between : list fxirr) : seg :=
-  let c := option_map rstrip (fx_comment l) in
-  let tr := match c with Some _ => 1 | None => 0 end in
-  match label_part l with
-  | [] => {| sg_amp := false; sg_ind := fx_ind l; sg_text := fx_text l ++ [" "%char]; sg_trail := tr;
-             sg_comment := c; sg_between := map bline_of between |}
-  | lp => {| sg_amp := false; sg_ind := 0; sg_text := lp ++ spaces (fx_ind l) ++ fx_text l ++ [" "%char];
-             sg_trail := tr; sg_comment := c; sg_between := map bline_of between |}
-  end.
+  {| sg_amp := false; sg_ind := seg_ind l; sg_text := seg_head l ++ fx_text l ++ [" "%char];
+     sg_trail := cont_trail l; sg_comment := cont_comment l; sg_between := map bline_of between |}.
 (* the last line of a statement *)
-Definition seg_last (l : fxline) : seg :=
-  match label_part l with
-  | [] => {| sg_amp := false; sg_ind := fx_ind l; sg_text := fx_text l; sg_trail := fx_pad l;
-             sg_comment := fx_comment l; sg_between := [] |}
-  | lp => {| sg_amp := false; sg_ind := 0; sg_text := lp ++ spaces (fx_ind l) ++ fx_text l;
-             sg_trail := fx_pad l; sg_comment := fx_comment l; sg_between := [] |}
+Definition last_comment (l : fxline) : option str :=
+  match fx_seq l, fx_comment l with
+  | None, c => c
+  | Some sq, None => Some (" "%char :: sq)
+  | Some _, Some t => Some (rstrip t)
   end.
+Definition last_trail (l : fxline) : nat :=
+  match fx_seq l, fx_comment l with
+  | Some _, None => 72 - text_width l
+  | _, _ => fx_pad l
+  end.
+Definition seg_last (l : fxline) : seg :=
+  {| sg_amp := false; sg_ind := seg_ind l; sg_text := seg_head l ++ fx_text l;
+     sg_trail := last_trail l; sg_comment := last_comment l; sg_between := [] |}.
 
 Fixpoint segs_of (l : fxline) (conts : list (list fxirr * fxline)) : list seg :=
   match conts with
@@ -148,10 +178,25 @@ Definition free_item (it : fxitem) : fitem :=
   end.
 Definition free_of (f : list fxitem) : list fitem := map free_item f.
 
-(* the equivalent by the standard's rules, whether or not literals are continued across lines *)
+(* the equivalent by the standard's rules, whether or not literals are continued across lines;
+   with the line length limited, columns 73+ are no part of the file ([std_seg] does not look at
+   them) *)
 Definition std_item (it : fxitem) : fitem :=
   match it with
   | FxStmt st => FLine (std_segs None (fs_first st) (fs_conts st))
   | _ => free_item it
   end.
 Definition std_free_of (f : list fxitem) : list fitem := map std_item f.
+
+(* the file cut at column 72 *)
+Definition cut_item (it : fxitem) : fxitem :=
+  match it with
+  | FxStmt st => FxStmt {| fs_first := cut_line (fs_first st);
+                           fs_conts := map (fun p => (fst p, cut_line (snd p))) (fs_conts st) |}
+  | _ => it
+  end.
+Definition no_seq_item (it : fxitem) : Prop :=
+  match it with
+  | FxStmt st => fx_seq (fs_first st) = None /\ Forall (fun p => fx_seq (snd p) = None) (fs_conts st)
+  | _ => True
+  end.
